@@ -569,6 +569,16 @@ def move_end_tags(chk, rng, p, xml0, hist, labels, other, nontriv):
         case = {"xml": xml0, "history": [list(x) for x in hist], "op": "insert_annotation_end" if is_annot else "set_reference_mark_end", "name": name, "args": {k: v for k, v in kw.items()}}
         chk.case((xml0, tuple(hist), case["op"], repr(kw)), nontrivial=nontriv)
         chk.count("move end tag", case["op"] + " " + how)
+        # the same operation on the Lean model (Markup.moveEnd): not for a point mark (its own tag changes too)
+        line = None
+        if is_annot or e.tag == "text:reference-mark-start":
+            from odfdo import AnnotationEnd, ReferenceMarkEnd
+
+            el = pt.enc_tokens(pt.tokens(pt.lxml_of(AnnotationEnd(e) if is_annot else ReferenceMarkEnd(name)), labels, other))
+            if how == "position":
+                line = f"mk moveend p {kw['position']} - | {enc_body(t0)} | {el}"
+            else:
+                line = f"mk moveend {how[0]} {kw['position']} {enc_spans(body(t0), re.compile(kw[how]), True)} | {enc_body(t0)} | {el}"
         try:
             if is_annot:
                 p.insert_annotation_end(e, **kw)
@@ -579,11 +589,16 @@ def move_end_tags(chk, rng, p, xml0, hist, labels, other, nontriv):
             if snapshot(p, labels, other) != t0:
                 chk.fail({**case, "clause": "raise-without-partial-modification"}, f"{case['op']} raised and left the paragraph modified")
                 return
+            if line:
+                chk.reqs.append((line, "none", case, False))
             continue
         except Exception as ex:  # noqa: BLE001
             chk.fail({**case, "exception": repr(ex), "clause": "raises"}, f"{case['op']} raised {type(ex).__name__}")
             return
         t1 = snapshot(p, labels, other)
+        if line:
+            chk.reqs.append((line, ("ok " + enc_body(t1)).strip(), case, False))
+            chk.count("move end tag", "sent to the model")
         if not text_ok(chk, case, t0, t1, f"{case['op']} (moving the end of a range) altered the paragraph text"):
             return
         q = "descendant::office:annotation-end[@office:name=$n]" if is_annot else "descendant::text:reference-mark-end[@text:name=$n]"
